@@ -1373,3 +1373,103 @@ C20_EV_INIT = dict(
             ("chain_ids must have one entry per theta", 1)],
 )
 ALL += [C20_EV_INIT]
+
+# ---- C01: the id encoders of data.py (vocabulary: end of Model/Encode.v; proofs: Proofs/C01Source.v) ----
+# numpy: a 1-d array is the list of its values, an id array (`idarray`) also carries "integer dtype".  pandas: a DataFrame is
+# the list of its rows in order, each with its index label (`frame R`), typed by its column set; a Series is the list of its
+# values (positional operators).  Trusted per entry: ONE numpy / pandas call each.  Doses are order keys: the only float
+# operation is `<= 0`.
+_C01 = dict(file="src/batchie/data.py", out="SrcEncode.v", imports="Generated.Consts Model.Encode", overload=True)
+_SENTINEL = ("CONTROL_SENTINEL_VALUE", "CONTROL_SENTINEL_VALUE", "Z")        # the module constant (Generated/Consts.v: read from common.py)
+_ZL = {"a": "list Z", "b": "list Z"}
+C01_VALID_IDS = dict(
+    _C01, func="numpy_array_is_0_indexed_integers", name="src_numpy_array_is_0_indexed_integers", pyparams=["arr"],
+    params=[("arr", "idarray")], returns="bool", vars={},
+    prims=[_SENTINEL,
+           ("np.issubdtype(__a.dtype, int)", "arr_is_int {a}", "bool", {"a": "idarray"}),
+           ("__x in __a", "np_contains {x} {a}", "bool", {"x": "Z", "a": "idarray"}),              # numpy's `in`: (a == x).any()
+           ("np.unique(__a)", "np_unique_ids {a}", "list Z", {"a": "idarray"}),                    # sorted distinct values
+           ("np.sort(__a)", "np_sort_Z {a}", "list Z", {"a": "list Z"}),
+           ("__a.shape[0]", "Z.of_nat (length {a})", "Z", {"a": "list Z"}),
+           ("np.arange(__n)", "zrange {n}", "list Z", {"n": "Z"}),                                  # 0 .. n-1, empty for n <= 0
+           ("np.array(__a)", "{a}", "list Z", {"a": "list Z"}),                                     # np.array([x]): the list's values
+           ("np.concatenate([__a, __b])", "{a} ++ {b}", "list Z", _ZL),
+           ("__a == __b", "np_eq_Z {a} {b}", "list bool", _ZL),                                     # elementwise, equal shapes
+           ("np.all(__b)", "all_true {b}", "bool", {"b": "list bool"})],
+)
+
+_TMAP_PY, _SMAP_PY = "(list name * list Z * idarray)", "(list name * idarray)"
+_OPTIDS = "list (option Z)"               # the id column of a left merge: NaN (None) where the mapping has no row
+_PANDAS_COMMON = [
+    ("np.all(__b)", "all_true {b}", "bool", {"b": "list bool"}),
+    ("__s.notna()", "series_notna {s}", "list bool", {"s": _OPTIDS}),
+    ("__s.values", "{s}", _OPTIDS, {"s": _OPTIDS}),                                                # the column's values as an array
+    ("__s.to_numpy()", "{s}", "list name", {"s": "list name"}),
+    ("__s.to_numpy()", "{s}", "list Z", {"s": "list Z"}),
+]
+_DF_UNIQUE_T = "kframe | cframe | iframe | nframe | dframe | mframe"
+C01_ENCODE_TREATMENTS = dict(
+    _C01, func="encode_treatment_arrays_to_0_indexed_ids", name="src_encode_treatment_arrays",
+    pyparams=["treatment_name_arr", "treatment_dose_arr", "control_treatment_name", "existing_mapping"], pydefaults=["''", "None"],
+    params=[("treatment_name_arr", "list name"), ("treatment_dose_arr", "list Z"), ("control_treatment_name", "name"),
+            ("existing_mapping", "opt " + _TMAP_PY)],
+    returns="(%s * list name * list Z * list Z)" % _OPTIDS,
+    vars={"df": "kframe", "df_unique": _DF_UNIQUE_T, "dose_is_zero": "list bool", "treatment_is_control": "list bool",
+          "is_control": "list bool", "selection": "list Z", "joined": "jframe"},
+    plain_contexts=["pandas.option_context('mode.copy_on_write', True)"], with_return=True,
+    prims=[_SENTINEL,
+           ("__m[0]", "fst (fst {m})", "list name", {"m": _TMAP_PY}), ("__m[1]", "snd (fst {m})", "list Z", {"m": _TMAP_PY}),
+           ("__m[2]", "snd {m}", "idarray", {"m": _TMAP_PY}),
+           ("pandas.DataFrame({'name': __a, 'dose': __b})", "!df_of_cols2 {a} {b}", "kframe", {"a": "list name", "b": "list Z"}),
+           ("pandas.DataFrame({'name': __a, 'dose': __b, 'new_index': __c})", "!mframe_of_cols {a} {b} {c}", "mframe",
+            {"a": "list name", "b": "list Z", "c": "idarray"}),
+           ("__d.drop_duplicates()", "df_drop_duplicates tkey_eqb {d}", "kframe", {"d": "kframe"}),
+           ("__d.sort_values(by=['name', 'dose'])", "df_sort_values tkey_cmp {d}", "kframe", {"d": "kframe"}),
+           ("__d.reset_index(drop=True)", "df_reset_drop {d}", "kframe", {"d": "kframe"}),
+           ("__d.reset_index(drop=False)", "df_reset_keep {d}", "iframe", {"d": "cframe"}),
+           ("__d['dose']", "kcol_dose {d}", "list Z", {"d": "kframe"}),
+           ("__d['name']", "kcol_name {d}", "list name", {"d": "kframe"}),
+           ("__s <= 0", "series_le0 {s}", "list bool", {"s": "list Z"}),                            # the one float comparison
+           ("__s == __c", "series_eq_name {s} {c}", "list bool", {"s": "list name", "c": "name"}),
+           ("__a | __b", "series_or {a} {b}", "list bool", {"a": "list bool", "b": "list bool"}),
+           ("__d.index", "df_index {d}", "list Z", {"d": "iframe"}), ("__d.index", "df_index {d}", "list Z", {"d": "nframe"}),
+           ("__d.is_control", "icol_is_control {d}", "list bool", {"d": "iframe"}),
+           ("__d.is_control", "ncol_is_control {d}", "list bool", {"d": "nframe"}),
+           ("__s.cumsum()", "series_cumsum {s}", "list Z", {"s": "list bool"}),
+           ("__a - __b", "series_sub {a} {b}", "list Z", _ZL),                                      # Index - Series
+           ("__i[__m]", "series_select {m} {i}", "list Z", {"i": "list Z", "m": "list bool"}),      # Index[boolean Series]
+           ("__l.merge(__r, on=['name', 'dose'], how='left')", "df_merge_left tkey_eqb {l} {r}", "jframe", {"l": "kframe", "r": "mframe"}),
+           ("__d.new_index", "jcol_new_index {d}", _OPTIDS, {"d": "jframe"}),
+           ("__d.new_index", "mcol_new_index {d}", "list Z", {"d": "mframe"}),
+           ("__d.name", "mcol_name {d}", "list name", {"d": "mframe"}), ("__d.dose", "mcol_dose {d}", "list Z", {"d": "mframe"}),
+           ] + _PANDAS_COMMON,
+    retype_effects=[
+        ("df_unique['is_control'] = __s", "df_unique", "df_add_col {state} {s}", "kframe", "cframe", {"s": "list bool"}),
+        ("df_unique['new_index'] = __s", "df_unique", "df_add_col {state} {s}", "iframe", "nframe", {"s": "list Z"}),
+        ("df_unique.loc[__l, 'new_index'] = __v", "df_unique", "df_loc_set {state} {l} {v}", "nframe", "nframe", {"l": "list Z", "v": "Z"}),
+        ("del df_unique['index']", "df_unique", "df_del_index {state}", "nframe", "dframe"),
+        ("del df_unique['is_control']", "df_unique", "df_del_is_control {state}", "dframe", "mframe")],
+    raises=[("Mapping of treatments to ids failed", 5)],
+)
+C01_ENCODE_1D = dict(
+    _C01, func="encode_1d_array_to_0_indexed_ids", name="src_encode_1d_array", pyparams=["arr", "existing_mapping"], pydefaults=["None"],
+    params=[("arr", "list name"), ("existing_mapping", "opt " + _SMAP_PY)],
+    returns="(%s * list name * list Z)" % _OPTIDS,
+    vars={"df": "vframe", "df_unique": "vframe | viframe | vmframe", "joined": "frame (name * option Z)"},
+    plain_contexts=["pandas.option_context('mode.copy_on_write', True)"], with_return=True,
+    prims=[("__m[0]", "fst {m}", "list name", {"m": _SMAP_PY}), ("__m[1]", "snd {m}", "idarray", {"m": _SMAP_PY}),
+           ("pandas.DataFrame({'val': __a})", "vframe_of_col {a}", "vframe", {"a": "list name"}),
+           ("pandas.DataFrame({'val': __a, 'new_index': __b})", "!vmframe_of_cols {a} {b}", "vmframe", {"a": "list name", "b": "idarray"}),
+           ("__d.drop_duplicates()", "df_drop_duplicates name_eqb {d}", "vframe", {"d": "vframe"}),
+           ("__d.sort_values(by='val')", "df_sort_values name_cmp {d}", "vframe", {"d": "vframe"}),
+           ("__d.reset_index(drop=True)", "df_reset_drop {d}", "vframe", {"d": "vframe"}),
+           ("__d.reset_index(drop=False)", "df_reset_keep {d}", "viframe", {"d": "vframe"}),
+           ("__d.rename(columns={'index': 'new_index'})", "df_rename_index {d}", "vmframe", {"d": "viframe"}),
+           ("__l.merge(__r, on=['val'], how='left')", "df_merge_left name_eqb {l} {r}", "frame (name * option Z)", {"l": "vframe", "r": "vmframe"}),
+           ("__d.new_index", "jcol_new_index {d}", _OPTIDS, {"d": "frame (name * option Z)"}),
+           ("__d.new_index", "vmcol_new_index {d}", "list Z", {"d": "vmframe"}),
+           ("__d.val", "vmcol_val {d}", "list name", {"d": "vmframe"}),
+           ] + _PANDAS_COMMON,
+    raises=[("Mapping to ids failed", 6)],
+)
+ALL += [C01_VALID_IDS, C01_ENCODE_TREATMENTS, C01_ENCODE_1D]
